@@ -5,9 +5,14 @@ fresh reals constrained by their defining polynomial and an isolating sign/inter
 division contributes its denominator to `denoms` (the caller assumes them non-zero: "generic parameters").
 `n`-dependent powers b**n are handled by a pluggable `pow_n` hook (used for the induction queries).
 """
+import hashlib
 import sympy as sp
 import z3
 from fractions import Fraction
+
+
+def _h(key):
+    return hashlib.sha1(repr(key).encode()).hexdigest()[:10]
 
 
 class Untranslatable(Exception):
@@ -74,10 +79,11 @@ class Tr:
         if isinstance(e, sp.exp):
             return self.exp(e.args[0])
         if isinstance(e, (sp.sin, sp.cos)) and self.uf:
-            a, ai = self.tr(sp.expand(e.args[0]))
-            if ai is not None:
-                raise Untranslatable(f"complex argument {e}")
-            return (self.uf_app("sin" if isinstance(e, sp.sin) else "cos", a), None)
+            # sin(a) / cos(a) = Im / Re of e^{ia}; e^{ia} honours integer multiples (see exp)
+            u = self.exp(sp.I * sp.expand(e.args[0]))
+            if isinstance(e, sp.cos):
+                return (u[0], None)
+            return (u[1] if u[1] is not None else z3.RealVal(0), None)
         if isinstance(e, sp.CRootOf):
             return self.crootof(e)
         if isinstance(e, sp.re):
@@ -90,6 +96,8 @@ class Tr:
             return (r, None if i is None else -i)
         if e is sp.E:
             return self.exp(sp.Integer(1))
+        if isinstance(e, (sp.sinh, sp.cosh, sp.tanh)) and self.uf:
+            return self.tr(e.rewrite(sp.exp))
         raise Untranslatable(f"unsupported {e} ({type(e).__name__})")
 
     def uf_app(self, name, arg):
@@ -197,7 +205,7 @@ class Tr:
                 raise Untranslatable(f"sqrt of complex {e}")
             key = ("sqrt", sp.srepr(b))
             if key not in self.alg:
-                v = z3.Real(f"alg{len(self.alg)}")
+                v = z3.Real(f"alg_{_h(key)}")
                 self.side += [v >= 0, v * v == bb]
                 self.alg[key] = v
             acc = (self.alg[key], None)
@@ -220,7 +228,7 @@ class Tr:
         key = ("root", b, x)
         if key not in self.alg:
             p, qd = int(x.p), int(x.q)
-            v = z3.Real(f"alg{len(self.alg)}")
+            v = z3.Real(f"alg_{_h(key)}")
             lhs = v
             for _ in range(qd - 1):
                 lhs = lhs * v
@@ -241,7 +249,7 @@ class Tr:
         if e.is_real:
             iv = e._get_interval()
             lo, hi = sp.Rational(iv.a), sp.Rational(iv.b)
-            v = z3.Real(f"alg{len(self.alg)}")
+            v = z3.Real(f"alg_{_h(key)}")
             val = (z3.RealVal(0), None)
             for c in coeffs:
                 val = (val[0] * v + self.q(c), None)
@@ -251,7 +259,7 @@ class Tr:
         else:
             iv = e._get_interval()
             ax, bx, ay, by = [sp.Rational(t) for t in (iv.ax, iv.bx, iv.ay, iv.by)]
-            vr, vi = z3.Real(f"alg{len(self.alg)}r"), z3.Real(f"alg{len(self.alg)}i")
+            vr, vi = z3.Real(f"alg_{_h(key)}r"), z3.Real(f"alg_{_h(key)}i")
             val = (z3.RealVal(0), None)
             for c in coeffs:
                 val = self.mul(val, (vr, vi))
